@@ -22,7 +22,16 @@ type Call struct {
 	M     string `json:"m"`
 	Path  string `json:"p,omitempty"` // target node (container calls on a nested node) / argument path / child name
 	Layer string `json:"l,omitempty"`
-	V     any    `json:"v,omitempty"` // wire scalar (Search), wire node (Equals/SameAs), "json"/"yaml" (Serialize)
+	V     any    `json:"v,omitempty"` // wire scalar (Search), wire node (Equals/SameAs/Merge), "json"/"yaml" (Serialize)
+	Opt   string `json:"o,omitempty"` // Merged / Merge: "" (default, position-wise) | "append" (dom.ListsMergeAppend())
+}
+
+// MergeOpts maps a case's list strategy to the merge options of the API.
+func MergeOpts(opt string) []dom.MergeOption {
+	if opt == "append" {
+		return []dom.MergeOption{dom.ListsMergeAppend()}
+	}
+	return nil
 }
 
 // Case is one document with the call sequences of the goroutines.
@@ -37,7 +46,40 @@ type Case struct {
 type Subject struct {
 	C dom.Container
 	O dom.OverlayDocument
+
+	// Keep (single-threaded use only): retain every view a read call hands out (merged views,
+	// layer snapshots, clones, merge results) with its content at the time it was returned.
+	Keep  bool
+	views []view
 }
+
+type view struct {
+	call Call
+	n    dom.Node
+	text string
+}
+
+func (s *Subject) keep(c Call, n dom.Node) dom.Node {
+	if s.Keep && n != nil {
+		s.views = append(s.views, view{c, n, NodeText(n)})
+	}
+	return n
+}
+
+// ChangedViews lists the retained views whose content is no longer what it was when the view
+// was returned ("call: then -> now").
+func (s *Subject) ChangedViews() []string {
+	var out []string
+	for _, v := range s.views {
+		if now := NodeText(v.n); now != v.text {
+			out = append(out, fmt.Sprintf("%s(o=%q): %s -> %s", v.call.M, v.call.Opt, v.text, now))
+		}
+	}
+	return out
+}
+
+// Views is the number of retained views.
+func (s *Subject) Views() int { return len(s.views) }
 
 func scalarFromWire(t, s string) any {
 	switch t {
@@ -128,6 +170,8 @@ func Build(origin string, d1, d2 any) *Subject {
 		return &Subject{C: dom.Builder().FromMap(m)}
 	case "merged":
 		return &Subject{C: container(d1).Merge(container(d2))}
+	case "merged-append":
+		return &Subject{C: container(d1).Merge(container(d2), dom.ListsMergeAppend())}
 	case "cloned":
 		c, _ := container(d1).Clone().(dom.Container)
 		return &Subject{C: c}
@@ -185,6 +229,11 @@ func plainText(v any) string {
 var ContainerMethods = []string{"Container.Child", "Container.Children", "Container.Lookup", "Container.Flatten",
 	"Container.Search", "Container.AsMap", "Container.Serialize", "Node.Equals", "Node.SameAs", "Node.Clone",
 	"Node.IsContainer", "Node.IsList", "Node.IsLeaf", "List.Items", "List.Size", "List.AsSlice", "Leaf.Value"}
+
+// AuxMethods: read-only uses of a document that are not methods of the read interfaces:
+// ContainerBuilder.Merge(other, opts...) "creates new Container instance" (dom/types.go) and, by the
+// merge property, modifies neither the receiver nor `other`; the document takes both roles.
+var AuxMethods = []string{"ContainerBuilder.Merge"}
 var OverlayMethods = []string{"OverlayDocument.Lookup", "OverlayDocument.LookupAny", "OverlayDocument.Search",
 	"OverlayDocument.Merged", "OverlayDocument.Layers", "OverlayDocument.LayerNames", "OverlayDocument.Walk",
 	"OverlayDocument.Serialize"}
@@ -258,8 +307,20 @@ func (s *Subject) Exec(c Call) (obs string) {
 		}
 		o := WireNode(c.V)
 		return fmt.Sprint(n.SameAs(o), o.SameAs(n))
+	case "ContainerBuilder.Merge":
+		o, ok := WireNode(c.V).(dom.ContainerBuilder)
+		if !ok || !n.IsContainer() {
+			return "not-applicable"
+		}
+		// the document as `other` (typed as the read-only Container) ...
+		obs := NodeText(s.keep(c, o.Merge(n.(dom.Container), MergeOpts(c.Opt)...)))
+		// ... and, when it is a builder, as the receiver
+		if cb, ok := n.(dom.ContainerBuilder); ok {
+			obs += "|" + NodeText(s.keep(c, cb.Merge(o, MergeOpts(c.Opt)...)))
+		}
+		return obs
 	case "Node.Clone":
-		cl := n.Clone()
+		cl := s.keep(c, n.Clone())
 		return NodeText(cl) + fmt.Sprint(cl.Equals(n), n.Equals(cl))
 	case "Node.IsContainer":
 		return fmt.Sprint(n.IsContainer())
@@ -305,9 +366,12 @@ func (s *Subject) execOverlay(c Call) string {
 		sort.Strings(parts)
 		return strings.Join(parts, ";")
 	case "OverlayDocument.Merged":
-		return NodeText(o.Merged())
+		return NodeText(s.keep(c, o.Merged(MergeOpts(c.Opt)...)))
 	case "OverlayDocument.Layers":
 		ls := o.Layers()
+		for _, l := range ls {
+			s.keep(c, l)
+		}
 		keys := make([]string, 0, len(ls))
 		for k := range ls {
 			keys = append(keys, k)
@@ -341,7 +405,8 @@ func (s *Subject) execOverlay(c Call) string {
 }
 
 // Fingerprint is a deep structural dump of the object graph behind x: pointers are followed,
-// unexported fields included, nil and empty maps / slices distinguished, slice capacity included.
+// unexported fields included, nil and empty maps / slices distinguished, slice capacity and the
+// content of the backing array between len and cap included.
 func Fingerprint(x any) string {
 	var sb strings.Builder
 	fp(&sb, reflect.ValueOf(x), map[uintptr]bool{}, 0)
@@ -395,6 +460,16 @@ func fp(sb *strings.Builder, v reflect.Value, seen map[uintptr]bool, depth int) 
 		for i := 0; i < v.Len(); i++ {
 			fp(sb, v.Index(i), seen, depth+1)
 			sb.WriteString(",")
+		}
+		if v.Cap() > v.Len() {
+			// the backing array between len and cap belongs to the object too: an append by
+			// somebody else that fits the capacity writes there
+			sb.WriteString("|spare:")
+			full := v.Slice3(0, v.Cap(), v.Cap())
+			for i := v.Len(); i < full.Len(); i++ {
+				fp(sb, full.Index(i), seen, depth+1)
+				sb.WriteString(",")
+			}
 		}
 		sb.WriteString("]")
 	case reflect.Array:
